@@ -102,6 +102,28 @@ Definition tstep (W : Z) (t : term) (k : tok) : term :=
 
 Definition trun (W : Z) (t : term) (ks : list tok) : term := fold_left (tstep W) ks t.
 
+(* The bounded terminal: B rows are available from the origin (rows 0..B-1).
+   A line feed on the last row scrolls: every row up to the last moves up by
+   one (rows above the origin exist: scrollback) and the last row becomes blank
+   in the current pen; the number of scrolls is counted.  CUD stops at the last
+   row.  Everything else is [tstep]. *)
+Definition scroll_up (B : Z) (t : term) : term :=
+  mkterm (fun y x => if y =? B - 1 then blank (pen t)
+                     else if y <? B - 1 then tgrid t (y + 1) x else tgrid t y x)
+         (cx t) (cy t) (pen t) (aw t) (cvis t) false (undef t).
+
+Definition tstepB (B W : Z) (s : term * Z) (k : tok) : term * Z :=
+  let '(t, n) := s in
+  match k with
+  | TLF => if cy t =? B - 1 then (scroll_up B t, n + 1) else (tstep W t TLF, n)
+  | TCUD m => if cy t <=? B - 1
+              then (mkterm (tgrid t) (cx t) (Z.min (B - 1) (cy t + pn m)) (pen t) (aw t) (cvis t) false (undef t), n)
+              else (tstep W t k, n)
+  | _ => (tstep W t k, n)
+  end.
+
+Definition trunB (B W : Z) (s : term * Z) (ks : list tok) : term * Z := fold_left (tstepB B W) ks s.
+
 (* Row dy becomes the origin (after a done render the next output starts on
    the line the cursor was left on). *)
 Definition tshift (t : term) (dy : Z) : term :=
@@ -116,8 +138,9 @@ Definition sx_tcell (c : tcell) : sx := L [sx_str (tg c); A (tp c); A (tk c)].
 Fixpoint zrange (a : Z) (n : nat) : list Z :=
   match n with O => [] | S k => a :: zrange (a + 1) k end.
 
-Definition dump (t : term) (W nrows : Z) : sx :=
+Definition dump (t : term) (scrolled W nrows : Z) : sx :=
   L [A (cx t); A (cy t); A (pen t); sx_bool (aw t); sx_bool (cvis t); sx_bool (pend t); sx_bool (undef t);
+     A scrolled;
      L (map (fun y => L (map (fun x => sx_tcell (tgrid t y x)) (zrange 0 (Z.to_nat W))))
             (zrange 0 (Z.to_nat nrows)))].
 
